@@ -51,9 +51,9 @@ CLAIMED = {
          "Exploration: generated valid server histories (channels x consumers x get/return, arbitrary body framing, cross-channel interleaving, read segmentation down to single bytes, an undrained consumer) are played to the real I/O thread; every receiver must yield exactly the scripted messages once, in order, field by field. The collector is additionally compared with a reference collector at 10^5-10^6 sequences.",
          "Trusts amq-protocol's codec for generating server frames, OS scheduling of the per-channel client threads (sampled, not enumerated). Bodies <= 12 KB end to end, <= 20 KB in the probe.",
          "DESIGN.md 4/C03"),
- "C06": ("property-based testing of FrameBuffer through a cfg(amiquip_verif) re-export: generated frame streams x two generated cut scripts; oracle = independent envelope split + promptness + metamorphic equality",
-         "Exploration: streams of real frames of every kind (plus malformed / EOF / I/O-error tails) are fed under arbitrary read segmentations; frames handed over, their timing (promptness per read_from call), byte counts and the terminal error must equal the reference, and two segmentations of one stream must agree.",
-         "Hook: amiquip::verif::FrameBuffer (re-export). Frames <= 20 KB. The end-to-end half of the property (client reaction) is exercised by C03's segmentations.",
+ "C06": ("property-based testing of FrameBuffer through a cfg(amiquip_verif) re-export: generated frame streams x two generated cut scripts; oracle = independent envelope split + promptness + metamorphic equality; plus generated whole sessions whose read boundary falls around the handshake/steady-state hand-over",
+         "Exploration: streams of real frames of every kind (plus malformed / EOF / I/O-error tails) are fed under arbitrary read segmentations; frames handed over, their timing (promptness per read_from call), byte counts and the terminal error must equal the reference, and two segmentations of one stream must agree. A second part runs whole sessions in which server frames follow OpenOk with the read boundary anywhere inside them: the session must open, work and close (or report the server's close, answered exactly once) wherever the cut falls.",
+         "Hook: amiquip::verif::FrameBuffer (re-export). Frames <= 20 KB. The client's reaction to segmentations in the steady state is exercised by C03's segmentations.",
          "DESIGN.md 4/C06"),
  "C07": ("property-based testing with a reference reader: generated sequences over an alphabet of server frames (one production per dispatch arm) played to the real client; model-based probe of the collector incl. extreme announced sizes; process aborts caught by subprocess + journal replay",
          "Exploration: safety (no panic, no abort, observed messages are a prefix of the compliant reading, every call returns) on every sequence, and exact error / hard-error code classification whenever the first irregularity is one the property names.",
